@@ -51,6 +51,11 @@ def make_cases(rng, tier):
 def conc_part(ck):
     """Concurrent half: statistics at quiescence under the deterministic scheduler."""
     import random
+    pr = check_proofs("C15conc", coqchk=(ck.tier == "thorough"))
+    for t in pr["theorems"]:
+        ck.oblige("theorem " + t, pr["ok"], pr["failed"] or "")
+    if not pr["ok"]:
+        ck.violation("conc_proofs", dict(broken=pr["failed"], theorem="Properties/C15conc.v", log=pr["log"][-1500:]), note="no-failing-input-found")
     rng = random.Random(ck.seed + 15)
     n = 400 if ck.tier == "quick" else 8000
     lines, progs = [], []
